@@ -26,7 +26,7 @@ St(j) == [config |-> ToSet(j.config), hist |-> FullHist(j.hist), status |-> j.st
           ctx |-> j.ctx, output |-> j.output, err |-> j.err]
 OutOf(jo) == [i \in 1..Len(jo) |->
                 [k |-> jo[i][1], a |-> jo[i][2], b |-> jo[i][3], c |-> ToSet(jo[i][4]), d |-> ToSet(jo[i][5])]]
-StepOf(j) == [op |-> j.op, ev |-> j.ev, ev2 |-> IF "ev2" \in DOMAIN j THEN j.ev2 ELSE "", gv |-> j.gv]
+StepOf(j) == [op |-> j.op, ev |-> j.ev, evs |-> IF "evs" \in DOMAIN j THEN j.evs ELSE <<>>, gv |-> j.gv]
 
 Unpack(s) == [config |-> s.config, hist |-> s.hist, status |-> s.status, ctx |-> s.ctx,
               queue |-> <<>>, out |-> <<>>, err |-> NoErr, rd |-> 0, output |-> s.output, gv |-> <<>>]
@@ -41,7 +41,7 @@ ImplStep(pre, step, eng) ==
        [] step.op = "send" /\ eng = "pure" /\ pre.status # "running" -> Unpack(pre)
        [] step.op = "send"  -> SendStep(p0, step.ev, step.gv, e0)
        [] step.op = "can"   -> CanStep(p0, step.ev, step.gv)
-       [] step.op = "batch" -> BatchStep(p0, <<step.ev, step.ev2>>, step.gv, e0)
+       [] step.op = "batch" -> BatchStep(p0, step.evs, step.gv, e0)
        [] OTHER -> p0
 
 ErrHead(e) == IF e = <<>> THEN <<>> ELSE <<e[1]>>
@@ -77,7 +77,8 @@ Verdict ==
                 C10 |-> On("C10", C10(pre, step, post, out, eng)),
                 C11 |-> On("C11", C11(pre, step, post, out, eng)),
                 C06 |-> On("C06", C06(pre, step, post, out)),
-                C20 |-> On("C20", C20(pre, step, post, out))]]
+                C20 |-> On("C20", C20(pre, step, post, out)),
+                C13 |-> On("C13", C13(pre, step, post, out))]]
 
 Emit == PrintT(ToJson(Verdict))
 =============================================================================
